@@ -273,7 +273,7 @@ fn compile(def: &BaseDef) -> miden::Program {
         Some(k) => assembler_with_kernel(k),
         None => assembler(),
     };
-    asm.compile(def.src).unwrap_or_else(|e| panic!("harness: base program {} must assemble: {e}", def.name))
+    asm.compile(def.src).unwrap_or_else(|e| panic!("SUBJECT: base program {} must assemble: {e}", def.name))
 }
 
 fn prove_base(def: &BaseDef, program: &miden::Program, options: ProvingOptions) -> Result<Result<(StackOutputs, ExecutionProof), String>, String> {
@@ -292,8 +292,8 @@ fn make_bases() -> Vec<Base> {
         .map(|(i, (def, program))| {
             // outputs as reported by execution
             let trace = exec_trace(&program, &def.stack, processor::AdviceInputs::default().with_stack(felts(&def.advice)), Default::default())
-                .unwrap_or_else(|p| panic!("harness: base {} panicked in execute: {p}", def.name))
-                .unwrap_or_else(|e| panic!("harness: base {} must execute: {e:?}", def.name));
+                .unwrap_or_else(|p| panic!("SUBJECT: base {} panicked in execute: {p}", def.name))
+                .unwrap_or_else(|e| panic!("SUBJECT: base {} must execute: {e:?}", def.name));
             let so = trace.stack_outputs().clone();
             let stmt = Stmt {
                 hash: hashes[i],
@@ -517,7 +517,7 @@ fn verify_bytes(stmt: &Stmt, bytes: &[u8]) -> Obs {
         Err(p) => Obs::Panic(format!("from_bytes: {p}")),
         Ok(Err(e)) => Obs::Rejected(format!("from_bytes:{}", variant(&format!("{e:?}")))),
         Ok(Ok(proof)) => match stmt.build() {
-            Err(e) => panic!("harness: honest statement must build: {e}"),
+            Err(e) => panic!("SUBJECT: honest statement must build: {e}"),
             Ok(b) => verify_built(b, proof),
         },
     }
@@ -695,7 +695,7 @@ fn eval_stmt(base: &Base, proof: &ExecutionProof, devs: &[Value]) -> (Option<Stm
         Ok(Ok(b)) => b,
     };
     let canon = Stmt::canon_of(&built);
-    let honest = Stmt::canon_of(&base.stmt.build().expect("harness: honest statement must build"));
+    let honest = Stmt::canon_of(&base.stmt.build().expect("SUBJECT: honest statement must build"));
     if canon == honest {
         return (None, Obs::Skipped("equal_after_construction".into()));
     }
@@ -1072,7 +1072,7 @@ pub fn run(ctx: &Ctx, replay: Option<&Value>) -> i32 {
             Ok(t) => tuples.push(t),
             Err(e) => {
                 if i < n_honest {
-                    panic!("harness: honest base {} under {} cannot be proved: {e} (that is C01's business)", bases[jobs[i].0].def.name, jobs[i].1);
+                    panic!("SUBJECT: honest base {} under {} cannot be proved: {e} (that is C01's business)", bases[jobs[i].0].def.name, jobs[i].1);
                 }
                 unprovable.push(json!({"base": bases[jobs[i].0].def.name, "options": jobs[i].1, "why": e.chars().take(160).collect::<String>()}));
             }
@@ -1095,7 +1095,7 @@ pub fn run(ctx: &Ctx, replay: Option<&Value>) -> i32 {
         // statement: singles (de-duplicated on the altered canonical statement), pairs in thorough
         let singles = stmt_devs(&base.stmt);
         let mut seen: HashSet<Stmt> = HashSet::new();
-        let honest_canon = Stmt::canon_of(&base.stmt.build().expect("harness: honest statement must build"));
+        let honest_canon = Stmt::canon_of(&base.stmt.build().expect("SUBJECT: honest statement must build"));
         let mut pre = |devs: Vec<Value>, class: String, cases: &mut Vec<Case>| {
             // cheap pre-pass without verification: applicability, constructibility, difference, duplicates
             let mut cur = base.stmt.clone();
